@@ -41,18 +41,19 @@ var keyEncs = []keyEnc{
 var keyVersions = []kmip.ProtocolVersion{kmip.V1_0, kmip.V1_1, kmip.V1_2, kmip.V1_3, kmip.V1_4}
 
 type keyEnv struct {
-	ctx      *Ctx
-	blobs    *keyBlobs
-	shapeRSA *rsa.PrivateKey
-	rsas     []*rsaSample
-	ecs      []*ecSample
-	byteS    []bytesSample
-	seen     map[string]bool
-	clients  map[string]*kmipclient.Client
-	ep       *cliEndpoint
-	mu       sync.Mutex
-	store    map[string]kmip.Object
-	nextID   int
+	ctx       *Ctx
+	blobs     *keyBlobs
+	shapeRSA  *rsa.PrivateKey
+	rsas      []*rsaSample
+	ecs       []*ecSample
+	byteS     []bytesSample
+	seen      map[string]bool
+	clients   map[string]*kmipclient.Client
+	ep        *cliEndpoint
+	mu        sync.Mutex
+	store     map[string]kmip.Object
+	nextID    int
+	wireFails int
 }
 
 func newKeyEnv(ctx *Ctx) *keyEnv {
@@ -133,7 +134,9 @@ type keyBuilder struct {
 
 const keyUsage = kmip.CryptographicUsageSign | kmip.CryptographicUsageVerify
 
-func pemBlock(ty string, der []byte) []byte { return pem.EncodeToMemory(&pem.Block{Type: ty, Bytes: der}) }
+func pemBlock(ty string, der []byte) []byte {
+	return pem.EncodeToMemory(&pem.Block{Type: ty, Bytes: der})
+}
 
 func rsaBuilders(k *rsa.PrivateKey) []keyBuilder {
 	pkcs1 := x509.MarshalPKCS1PrivateKey(k)
@@ -329,7 +332,8 @@ func rtCase(env *keyEnv, path string, enc keyEnc, ver kmip.ProtocolVersion, b ke
 		outcome = "violation"
 		if orig.multi && regFmt == 10 {
 			// everything that goes wrong with a multi-prime key in the two-prime transparent format is one finding
-			oracle, what = "key-equal", "transparent-rsa:multi-prime-truncated"
+			keyViolate(ctx, "key-equal", "key:rsapriv:transparent-rsa:multi-prime-truncated", detail+" ["+line+"]", line)
+			return
 		}
 		keyViolate(ctx, oracle, "key:"+enc.name+":"+b.kind+":"+what, detail+" ["+line+"]", line)
 	}
@@ -353,6 +357,11 @@ func rtCase(env *keyEnv, path string, enc keyEnc, ver kmip.ProtocolVersion, b ke
 		return
 	}
 	if bl.err != nil {
+		if orig.multi && expectedFormat(b.kind, kf, ver) == 10 {
+			// the transparent KMIP format has two primes: refusing a multi-prime key is a correct answer
+			outcome = "refused"
+			return
+		}
 		fail("register-accepts", "register-refused", "the builder refused a valid key: "+bl.err.Error())
 		return
 	}
@@ -409,14 +418,24 @@ func rtCase(env *keyEnv, path string, enc keyEnc, ver kmip.ProtocolVersion, b ke
 			pl  *payloads.GetResponsePayload
 			err error
 		}
+		if env.wireFails > 20 {
+			outcome = "skipped"
+			return
+		}
 		r, p := guard("exec", func() wres {
-			rr, err := bl.ex.ExecContext(context.Background())
+			// a broken framing must not block the engine: every exchange has a deadline
+			cctx, cancel := context.WithTimeout(context.Background(), 5*time.Second)
+			defer cancel()
+			rr, err := bl.ex.ExecContext(cctx)
 			if err != nil {
 				return wres{nil, err}
 			}
-			g, err := cl.Get(rr.UniqueIdentifier).ExecContext(context.Background())
+			g, err := cl.Get(rr.UniqueIdentifier).ExecContext(cctx)
 			return wres{g, err}
 		})
+		if r.err != nil || p != "" {
+			env.wireFails++
+		}
 		if p != "" || r.err != nil || r.pl == nil {
 			fail("transport", "wire-failed", fmt.Sprintf("Register then Get over the in-process connection failed: %v %s", r.err, p))
 			return
@@ -589,7 +608,10 @@ func rtCase(env *keyEnv, path string, enc keyEnc, ver kmip.ProtocolVersion, b ke
 		mustErr("RsaPublicKey", func() error { _, err := got.RsaPublicKey(); return err })
 		mustErr("EcdsaPrivateKey", func() error { _, err := got.EcdsaPrivateKey(); return err })
 	case "sym":
-		check("SymmetricKey", func() (bool, error) { v, err := got.SymmetricKey(); return err == nil && bytes.Equal(v, orig.bytes), err })
+		check("SymmetricKey", func() (bool, error) {
+			v, err := got.SymmetricKey()
+			return err == nil && bytes.Equal(v, orig.bytes), err
+		})
 		if sk, ok := got.Object.(*kmip.SymmetricKey); ok {
 			check("KeyMaterial", func() (bool, error) { v, err := sk.KeyMaterial(); return err == nil && bytes.Equal(v, orig.bytes), err })
 			if int(sk.KeyBlock.CryptographicLength) != 8*len(orig.bytes) || sk.KeyBlock.CryptographicAlgorithm != kmip.CryptographicAlgorithmAES {
